@@ -49,7 +49,7 @@ class Explorer:
         import os as _os
         import time as _time
 
-        self.deadline = _time.time() + float(budget_s if budget_s is not None else _os.environ.get("PYVC_CONTRACT_BUDGET_S", "150"))
+        self.deadline = _time.time() + float(budget_s if budget_s is not None else _os.environ.get("PYVC_CONTRACT_BUDGET_S", "400"))
         self.prefix: list[bool] = []
         self.decisions: list[bool] = []
         self.pc: list = []  # path condition + assumptions (z3 BoolRefs)
